@@ -8,6 +8,7 @@ import (
 	"sync"
 	"sync/atomic"
 	"testing"
+	"time"
 
 	mocker "github.com/tencent/goom"
 	"github.com/tencent/goom/arg"
@@ -59,6 +60,41 @@ func TestC11(t *testing.T) {
 		}
 		fmu.Unlock()
 	}
+	flushFails := func() {
+		fmu.Lock()
+		for _, f := range fails {
+			rep.Violate(f.key, f.what, nil)
+		}
+		fails = nil
+		fmu.Unlock()
+	}
+	// before any concurrency: instantiations of a generic function mocked one by one (also in the race-instrumented
+	// build, where every wrapper calls the race detector's hooks before the function it forwards to)
+	{
+		rep.Journal(map[string]interface{}{"part": "generic targets, sequential", "crashkey": "C11/generic-target-in-instrumented-build"})
+		rep.JournalSync()
+		gb := mocker.Create()
+		for i, g := range GenTargets {
+			gb.Func(g.Fn).Return(100 + i)
+		}
+		for i, g := range GenTargets {
+			rep.Eval(1)
+			if got := g.Call(); got != 100+i {
+				addFail("C11/generic-target-in-instrumented-build", fmt.Sprintf("generic instantiation %d mocked with Return(%d) returns %d", i, 100+i, got))
+			}
+		}
+		if got := Hot[0](5); got != HotOrig(0, 5) {
+			addFail("C11/generic-target-in-instrumented-build", fmt.Sprintf("an unrelated function returns %d (want %d) while generic instantiations are mocked", got, HotOrig(0, 5)))
+		}
+		gb.Reset()
+		for i, g := range GenTargets {
+			if got := g.Call(); got != g.Orig {
+				addFail("C11/generic-target-in-instrumented-build", fmt.Sprintf("generic instantiation %d returns %d after Reset, want %d", i, got, g.Orig))
+			}
+		}
+		rep.Journal(map[string]interface{}{"part": "generic targets done"})
+		rep.Class("generic-targets-sequential")
+	}
 	for r := 0; r < rounds; r++ {
 		M := 2 + rng.Intn(11)
 		N := 2 + rng.Intn(23)
@@ -76,7 +112,7 @@ func TestC11(t *testing.T) {
 			k := k
 			if k%4 == 2 {
 				// conditional stub with In clauses: every concurrent caller is judged on its own argument
-				sb.Func(Steady[k]).Return(300000 + k).In(1, 2, 3, 5, 8).Return(400000 + k).When(arg.In(13, 21)).Return(500000 + k)
+				sb.Func(Steady[k]).Return(300000+k).In(1, 2, 3, 5, 8).Return(400000 + k).When(arg.In(13, 21)).Return(500000 + k)
 				steadyWant[k] = func(a int) int {
 					switch a {
 					case 1, 2, 3, 5, 8:
@@ -188,9 +224,23 @@ func TestC11(t *testing.T) {
 							return
 						}
 					}
+					// own instantiation of a generic function (goom scans the instantiation's wrapper for the shared body)
+					if m < len(GenTargets) {
+						api(func() { b.Func(GenTargets[m].Fn).Return(v + 5) })
+						if got := GenTargets[m].Call(); got != v+5 {
+							addFail("C11/own-instruction-not-in-effect", fmt.Sprintf("mocker %d: after Func(generic instantiation %d).Return: %d, want %d", m, m, got, v+5))
+							return
+						}
+					}
 					api(func() { b.Reset() })
 					if !expect("Reset", k, 5, HotOrig(id, 5)) {
 						return
+					}
+					if m < len(GenTargets) {
+						if got := GenTargets[m].Call(); got != GenTargets[m].Orig {
+							addFail("C11/own-instruction-not-in-effect", fmt.Sprintf("mocker %d: after Reset generic instantiation %d returns %d, want %d", m, m, got, GenTargets[m].Orig))
+							return
+						}
 					}
 					if m < len(CMName) {
 						if got := CMCall[m](5); got != CMOrig(m, 5) || IVars[m] != nil {
@@ -242,7 +292,18 @@ func TestC11(t *testing.T) {
 				b.Reset()
 			}(q)
 		}
-		mg.Wait()
+		// every mocker works on targets of its own: they all finish; if none does for minutes they have wedged one another
+		mdone := make(chan struct{})
+		go func() { mg.Wait(); close(mdone) }()
+		select {
+		case <-mdone:
+		case <-time.After(time.Duration(vmon.EnvInt("VERIF_C11_STALL_S", 240)) * time.Second):
+			addFail("C11/builders-wedged", fmt.Sprintf("round %d: %d independent builders (disjoint targets) and %d rejecters did not finish within the stall limit after %d API operations: they block one another", r, M, R, atomic.LoadInt64(&patchOps)))
+			atomic.StoreInt32(&stop, 1)
+			rep.Eval(atomic.LoadInt64(&patchOps))
+			flushFails()
+			return
+		}
 		atomic.StoreInt32(&stop, 1)
 		wg.Wait()
 		sb.Reset()
